@@ -399,9 +399,18 @@ def root_kinds():
     return ["any"] * 27 + ["bytes", "bytearray", "memoryview"]
 
 
-def gen_case(rng: random.Random, depth: int) -> dict:
+BYTES_WRAPPERS = ["final", "classvar", "newtype", "alias", "str", "fref", "final-newtype", "alias-str", "final-alias-str",
+                  "alias-str-chain", "alias-str-newtype"]
+
+
+def bytes_sweep_cases(rng: random.Random) -> list:
+    """every bytes-like root kind behind every transparent wrapper shape (systematic, not sampled)"""
+    return [gen_case(rng, 2, forced_root=rk, forced_wrapper=w) for rk in root_kinds() if rk != "any" for w in [""] + BYTES_WRAPPERS]
+
+
+def gen_case(rng: random.Random, depth: int, forced_root=None, forced_wrapper=None) -> dict:
     g = Gen(rng, depth)
-    rk = rng.choice(root_kinds())
+    rk = forced_root if forced_root is not None else rng.choice(root_kinds())
     if rk == "any":
         t = g.gen_type()
     else:
@@ -412,8 +421,23 @@ def gen_case(rng: random.Random, depth: int) -> dict:
         g.inq = True
         # a bytes-like root behind the transparent wrappers of the universe (qualifiers, NewType, alias, references):
         # still a bytes-like T, still carried verbatim by every entry point
-        w = rng.choice(["", "", "final", "classvar", "newtype", "alias", "str", "fref", "final-newtype"])
-        if w in ("newtype", "final-newtype"):
+        w = forced_wrapper if forced_wrapper is not None else rng.choice([""] + BYTES_WRAPPERS)
+        if w in ("alias-str", "final-alias-str", "alias-str-chain"):
+            # a STRING-valued alias: unwrap() stops at the reference to its text (repaired in /repo by 6dde95d)
+            g.defs.append("from typelib.py.compat import TypeAliasType as _TAT")
+            g.defs.append(f"BWrapS = _TAT('BWrapS', {texpr!r})")
+            texpr = "BWrapS"
+            if w == "alias-str-chain":
+                g.defs.append("BWrapS2 = _TAT('BWrapS2', 'BWrapS')")
+                texpr = "BWrapS2"
+            elif w == "final-alias-str":
+                texpr = "typing.Final[BWrapS]"
+        elif w == "alias-str-newtype":
+            g.defs.append("from typelib.py.compat import TypeAliasType as _TAT")
+            g.defs.append(f"BWrapN = typing.NewType('BWrapN', {texpr})")
+            g.defs.append("BWrapSN = _TAT('BWrapSN', 'BWrapN')")
+            texpr = "BWrapSN"
+        elif w in ("newtype", "final-newtype"):
             g.defs.append(f"BWrapN = typing.NewType('BWrapN', {texpr})")
             texpr = "BWrapN" if w == "newtype" else "typing.Final[BWrapN]"
         elif w == "alias":
